@@ -15,7 +15,8 @@ Inductive obs :=
 | RVal (v : option bytes)                (* Get: value / key not found *)
 | RErr (e : err)
 | RDump (l : list (N * option bytes))
-| ROther.                                (* an error class the model does not know *)
+| ROther                                 (* an error class the model does not know *)
+| RHung.                                 (* the call did not return within the watchdog time (the run stops there) *)
 
 Record case := {
   c_cfg : cfg;
@@ -97,6 +98,11 @@ Definition spec_ok (c : case) : bool :=
   (negb (has_final_dumps (c_ops c)) ||
    dumps_ok (map sr_writes (os_hist (orun (cf_detect (c_cfg c)) tr))) (final_dumps (c_ops c) [])).
 
+Definition is_hung (r : obs) : bool := match r with RHung => true | _ => false end.
+Definition no_hang (c : case) : bool := forallb (fun e => negb (is_hung (snd e))) (c_ops c).
+
+(** a call that never returned is a model mismatch here (the model's calls always return);
+    it is the specification violation of C37 ([Corr.RunClose]). *)
 Definition check (c : case) : verdict :=
   mk_verdict (negb (agree c st_init (c_ops c))) (negb (spec_ok c)) 0.
 
@@ -108,6 +114,10 @@ Definition FP (k : string) (h : N) : string * N := (k, h).
 Definition Cs (g : cfg) (f : list (string * N)) (l : list (op * obs)) : case :=
   {| c_cfg := g; c_fps := map (fun e => (unhex (fst e), snd e)) f; c_ops := l |}.
 Definition B (id : N) (u : bool) := (Begin id u, RNil).
+Definition Bh (id : N) (u : bool) := (Begin id u, RHung).
+Definition Xh (id : N) := (Discard id, RHung).
+Definition Clh := (Close, RHung).
+Definition Roh := (Reopen, RHung).
 Definition G (id : N) (k : string) (r : obs) := (Get id (unhex k), r).
 Definition S (id : N) (k v : string) (r : obs) := (Put id (unhex k) (Some (unhex v)), r).
 Definition D (id : N) (k : string) (r : obs) := (Put id (unhex k) None, r).
